@@ -72,6 +72,17 @@ def run(ctx: Ctx) -> None:
                 ctx.check(got[0] == got[1] and unchanged, "M4", f"{t}.{k} | {vc.name}", loc_fv, f"{got[0][1]!r} twice", f"{k.upper()}: the first print writes {got[0][1]!r}, printing the same list object again writes {got[1][1]!r}" + ("" if unchanged else f" - the caller's list was rewritten to {holder['v']!r}"))
     ctx.units["list_values_printed_twice"] = n4
 
+    # ---- M5 keyword and value stay two tokens under align_values -----------------------------------
+    ctx.rule("M5", "with align_values every keyword of every type, printed as the only keyword of its object, is followed by at least one blank before its value (indent 0, 1, 2, 4, 7): an independent reader sees the keyword and the value, not one unknown word", 250)
+    from .. import layout as _layout5
+
+    L5 = _layout5.Layout(e)
+    n5 = 0
+    for t, k, bad in printer.glued_under_alignment(e, L5):
+        n5 += 1
+        ctx.check(not bad, "M5", f"{t}.{k}", loc_fv, "keyword and value separated", f"with align_values the line for {k.upper()} is written {bad[:3]}: keyword and value run together, so the text no longer says {k.upper()} <value>")
+    ctx.units["keywords_checked_under_align_values"] = n5
+
     # ---- M3 lookup follows the enclosing object ------------------------------------------------------
     ctx.rule("M3", "a keyword is formatted by the schema of its *own* enclosing object wherever it stands: printed after a child block that has a keyword of the same name with a different schema, its line is the same as without the child", 10)
     from .. import layout as _layout
